@@ -29,7 +29,7 @@ class Contract:
     comp_effects = {}
     inline = ()
     assumptions = ()
-    timeout_ms = 4000
+    timeout_ms = 12000         # per-obligation budget of each back end (obligations seen near 4 s on an idle machine went undecided under load)
 
     def __init__(self, key=None):
         if key is not None:
